@@ -233,7 +233,7 @@ def r3_all_parents_placed(ctx: Context) -> None:
 
 
 def run(ctx: Context) -> None:
-    r1_must_call(ctx)
-    r2_precedence_shape(ctx)
-    r3_all_parents_placed(ctx)
-    c10.r6_indicator_pairs(ctx, rule="C11.R3b")
+    ctx.isolate(r1_must_call)
+    ctx.isolate(r2_precedence_shape)
+    ctx.isolate(r3_all_parents_placed)
+    ctx.isolate(c10.r6_indicator_pairs, rule="C11.R3b")
